@@ -235,6 +235,15 @@ pub fn run(ctx: &mut Ctx) {
             if round == 0 && !ctx.miri {
                 arith_is_reported(ctx, &doc, &path, &mut rng);
             }
+            if round == 2 && i % 3 == 0 && !refpath::has_arith(&path) && !ctx.miri {
+                // one Selector object for several documents in turn
+                let enc = refcodec::encode(&doc);
+                let other = refcodec::encode(&gen::derive(&doc, &mut rng));
+                selector_reuse(ctx, &enc, &other, &text, &|| format!("path={:?} doc={}", text, doc.show()));
+                if let Some(o2) = same_len_other_root(&enc, &doc) {
+                    selector_reuse(ctx, &enc, &o2, &text, &|| format!("path={:?} doc={}", text, doc.show()));
+                }
+            }
             if round == 1 && i % 2 == 0 && doc.nodes() < 300 && !matches!(refpath::eval(&path, &doc), Outcome::Unspecified) {
                 // the same selection on the text of the document and on reused buffers
                 let plain = refpath::render(&path, &refpath::PLAIN, &mut rng);
@@ -242,6 +251,38 @@ pub fn run(ctx: &mut Ctx) {
                 mon.check(ctx, &doc, &doc, &args, &mut rng);
             }
             ctx.sample(|| format!("{} on {}", text, doc.show()));
+        }
+        if i % 41 == 3 && !ctx.miri {
+            // wide documents: first, last and middle members / elements by name and by index
+            let w = gen::wide_doc(&mut rng);
+            let mut paths: Vec<JPath> = Vec::new();
+            match &w {
+                Tree::Obj(v) => {
+                    for k in [0, v.len() / 2, v.len() - 2, v.len() - 1] {
+                        for st in [refpath::NameStyle::Dot, refpath::NameStyle::Bracket, refpath::NameStyle::Colon] {
+                            paths.push(JPath::Steps(vec![refpath::Step::Name(v[k].0.clone(), st)]));
+                        }
+                    }
+                    paths.push(JPath::Steps(vec![refpath::Step::Name("k999".into(), refpath::NameStyle::Dot)]));
+                }
+                Tree::Arr(v) => {
+                    let n = v.len() as i32;
+                    for ix in [refpath::Idx::I(0), refpath::Idx::I(n - 1), refpath::Idx::I(n), refpath::Idx::Last(0), refpath::Idx::Last(-(n - 1)), refpath::Idx::Last(-n)] {
+                        paths.push(JPath::Steps(vec![refpath::Step::Indices(vec![refpath::AIdx::One(ix)])]));
+                    }
+                    paths.push(JPath::Steps(vec![refpath::Step::Indices(vec![refpath::AIdx::Range(refpath::Idx::I(n - 3), refpath::Idx::Last(0))])]));
+                    paths.push(JPath::Steps(vec![refpath::Step::BracketWild, refpath::Step::Name("id".into(), refpath::NameStyle::Dot)]));
+                }
+                _ => {}
+            }
+            let wg = PathGen::new(&w);
+            for _ in 0..3 {
+                paths.push(wg.guided_path(&mut rng, &cfg, &w));
+            }
+            for p in paths {
+                let text = refpath::render(&p, &refpath::PLAIN, &mut rng);
+                check(ctx, &w, &p, &text);
+            }
         }
         if i % 4 == 0 {
             let a = *rng.pick(ARITH);
